@@ -43,7 +43,7 @@ package bastion
 //@   ensures[C11.rl,C10.rl] !rd_err[b] && !noNL(old(rd_buf[b])) && !lineLong(old(rd_buf[b])) ==> err == nil
 //@   ensures[C11.rl,C10.rl] noNL(old(rd_buf[b])) || lineLong(old(rd_buf[b])) ==> err != nil
 //@   ensures[C11.rl] err == nil ==> len(rd_buf[b]) < len(old(rd_buf[b]))
-//@   ensures[C11.rl] forall q Ref :: q != b ==> rd_buf[q] == old(rd_buf)[q]
+//@   ensures[C11.rl] forall q Ref :: q != b && q != rd_under[b] ==> rd_buf[q] == old(rd_buf)[q]
 //@   ensures[C11.rl] err != nil ==> !isSentinel(err) && line == nil
 //@   hint cut_nl(lineOf(rd_buf[b]))
 
@@ -62,7 +62,7 @@ package bastion
 //@   let truncated := input == "old " ++ fmt_du(G_n()) ++ "\n" ++ encTr(G_row(), G_off(), 0, G_j(), G_part())
 //@                     && !rd_err[refOf(r)] && G_j() < 1000000 && (forall j int :: 0 <= j && j < G_j() ==> len(G_row()[G_off() + j]) > 0 && len(b64enc(str(G_row()[G_off() + j]))) < 4096)
 //@                     && noNL(G_part())
-//@   modifies rd_buf, rd_err
+//@   modifies rd_buf, rd_err, rd_under
 //@   ghostmodifies n_pb
 //@   ensures[ghost] n_pb == old(n_pb) + 1
 //@   // a proof line that is not base64 is refused, wherever it stands and whatever follows it
@@ -121,7 +121,7 @@ package bastion
 //@   requires forall k string :: k in a.logs ==> a.logs[k].Origin == originFor(k)
 //@   modifies n_wo, wo_err, wo_h, n_gl, gl_err, gl_val, gl_h, n_set, set_err, set_arg, set_h, n_close, close_h, n_commit
 //@   modifies n_sign, sign_err, sign_out, sign_n, st_has, st_val, cnt, n_upd, upd_id, upd_old, upd_cp, upd_proof, upd_out, upd_err
-//@   modifies n_allow, allow_ok, n_pb, rd_buf, rd_err, n_wh, wh_code, n_write, body_out, n_hdr, hdr_key, hdr_val, n_bodies_open
+//@   modifies n_allow, allow_ok, n_pb, rd_buf, rd_err, n_wh, wh_code, n_write, body_out, n_hdr, hdr_key, hdr_val, n_bodies_open, body_open, rd_under
 //@   // always exactly one status line, one of the documented codes
 //@   ensures[C10.one,C19.one] n_wh == 1 && (wh_code == 200 || wh_code == 400 || wh_code == 403 || wh_code == 404 || wh_code == 409 || wh_code == 422 || wh_code == 429 || wh_code == 500)
 //@   // over the rate: 429 without reading the body or touching the witness
